@@ -5,6 +5,21 @@ NOTES = ("All checks are contract-based deductive verification with pyvc (DESIGN
          "contract, failed validation of an assumed external contract). Known findings: /verif/known_findings.json.")
 
 CLAIMS = {
+    "C14": {
+        "text": ("Proof by symbolic execution on a heap with concrete identities that TaxBenefitSystem.clone, Reform.__init__ (with an "
+                 "apply() that edits variables and parameters), modify_parameters, load/add/update/replace/neutralize/annualize_variable, "
+                 "Variable.clone and Parameter.clone change nothing reachable from the base system (every field of every reachable "
+                 "object is compared with a snapshot), keep the base's entities bound to it, and give the derived system its own "
+                 "tables, variables, entities and parameter tree; and that derived definitions are as declared: Variable.set inherits "
+                 "what an update does not redefine, set_formulas keeps strictly earlier formulas, a neutralised variable is a new "
+                 "flagged object, an annualised formula requests January of the same year. The real Variable.__init__ runs inside."),
+        "note": ("One representative heap shape (two entities, three variables, two-level parameter tree); formula dates are concrete "
+                 "cases (earlier / same / between / later), not symbolic. copy.deepcopy and SortedDict are assumed contracts. Three "
+                 "genuine defects found here were repaired (fix: commits). Calculations on both systems are not re-derived here "
+                 "(they follow from untouched definitions and the engine contracts)."),
+        "technique": "contract-based deductive verification (heap frame postconditions by symbolic execution)",
+        "design_ref": "DESIGN.md section 4 C14",
+    },
     "C13": {
         "text": ("Proof by symbolic execution of the real Simulation.clone, Population.clone, GroupPopulation.clone and Holder.clone "
                  "on a heap with concrete object identities and symbolic contents: every part of the clone refers to the clone "
